@@ -208,6 +208,22 @@ func c05Judge(sc string, o *c05Obs, r *vsched.Result) (string, string) {
 					n, r.Outcome, r.Blocked)
 		}
 	}
+	// GracefulClose "waits for the operations queue to be cleared": with a single closer, whatever runs at all
+	// has finished when the close returns (a second closer finds the queue closed and returns at once, so the
+	// clause is not judged when two closers race)
+	if cr, ok := o.ev["closeRet"]; ok {
+		if _, two := o.ev["close2Ret"]; !two {
+			for _, n := range names {
+				if o.runs[n] != 1 {
+					continue
+				}
+				if end, ok := o.endT[n]; !ok || end > cr {
+					return sc + "|close-returned-before-accepted-item-finished|" + n,
+						fmt.Sprintf("GracefulClose returned (tick %d) although item %s, which the queue accepted, had not finished (order %v)", cr, n, o.order)
+				}
+			}
+		}
+	}
 	// FIFO with respect to the real-time order of Enqueue calls
 	for _, x := range names {
 		for _, y := range names {
